@@ -67,8 +67,23 @@ void snoopy_error_handler (char const * const errorMsg)
         return;
     }
 
+    /*
+     * Do not report errors that occur while an error is being reported
+     *
+     * The output used for the report may fail in the very same way (i.e. a syslog
+     * ident or file path template that does not fit its buffer) - reporting that
+     * again would recurse until the stack of the calling process is exhausted.
+     */
+    static __thread int errorHandlerActive = SNOOPY_FALSE;
+    if (SNOOPY_TRUE == errorHandlerActive) {
+        return;
+    }
+    errorHandlerActive = SNOOPY_TRUE;
+
     snprintf(errorMsgFormatted, SNOOPY_ERROR_MSG_BUF_SIZE, "SNOOPY ERROR: %s", errorMsg);
     errorMsgFormatted[SNOOPY_ERROR_MSG_BUF_SIZE-1] = '\0';
 
     snoopy_action_log_message_dispatch(errorMsg);
+
+    errorHandlerActive = SNOOPY_FALSE;
 }
